@@ -16,6 +16,9 @@ func init() {
 			for k := 1; k <= maxK; k++ {
 				jobs = append(jobs, Job{Pkg: "filterlist", Func: "verifC19Storage", Args: []int64{int64(k)}})
 			}
+			for _, bl := range []int64{4, 16} {
+				jobs = append(jobs, Job{Pkg: "filterlist", Func: "verifC19File", Args: []int64{bl}, Raw: true})
+			}
 			shapes := [][][2]int{{{5, 0}}, {{6, 0}}, {{0, 1}}, {{3, 0}}, {{5, 0}, {3, 0}}, {{0, 1}, {3, 0}}, {{5, 0}, {5, 0}}, {{5, 1}, {2, 0}}}
 			urlLens := []int64{5, 6}
 			if tier == "thorough" {
@@ -48,12 +51,12 @@ func init() {
 			e.Redirects[qRetrieveNet] = l.Pkgs[modPath].Func("verifRetrieveNetworkRuleAny")
 		},
 		AbstractHash: true,
-		MustReach:    []string{"c19.retrieval", "c19.inmemory", "c19.cached", "c19.failed", "c19.afterclose", "c19.dns"},
+		MustReach:    []string{"c19.retrieval", "c19.inmemory", "c19.cached", "c19.failed", "c19.afterclose", "c19.dns", "c19.file.cached", "c19.file.lost"},
 		Bounds: map[string]string{
-			"quick":    "tables: 1..2 rules (shapes as C01), URL of 5..6 symbolic bytes, every storage retrieval during the query may fail independently (symbolic fault bit per call); DNS engine: 1..3 rules, every host-rule and network-rule retrieval may fail; storage: 1..3 retrievals of two indexes from a list that may fail at every call",
+			"quick":    "tables: 1..2 rules (shapes as C01), URL of 5..6 symbolic bytes, every storage retrieval during the query may fail independently (symbolic fault bit per call); DNS engine: 1..3 rules, every host-rule and network-rule retrieval may fail; storage: 1..3 retrievals of two indexes from a list that may fail at every call; storage over a file-backed list (file model) whose storage or file handle is closed, cold or warm, then retrieval, typed helpers and scan",
 			"thorough": "URLs of 4..7 bytes; storage sequences up to 5 retrievals",
 		},
-		Outside:     []string{"the operating-system behaviour of a closed file descriptor (FileRuleList with failing Seek/Read is exercised in C11's file model)", "more than 2 rules per request"},
+		Outside:     []string{"the operating-system behaviour of a closed file descriptor beyond the file model (Seek and Read on a closed file return an error)", "more than 2 rules per request"},
 		Assumptions: []string{"a failing list makes RuleStorage.RetrieveNetworkRule return nil (checked on the real RetrieveRule in the storage harness)"},
 		Rule:        "fault schedule = one symbolic Boolean per retrieval; one state per feasible path",
 	})
